@@ -78,6 +78,17 @@ func TestSweep(t *testing.T) {
 			}
 		}
 	}
+	// the shared buffer got its storage from a growing Append and nobody has asked for its capacity or sliced it yet
+	for ti, tn := range Types {
+		for _, sh := range [][3]int{{3, 5, 0}, {3, 5, 1}, {5, 3, 2}, {2, 9, 1}, {7, 2, 0}} {
+			c := &Case{T: tn, C: sh[0], F: sh[1], RO: 1, Partial: sh[2], Grown: true, Procs: []int{2, 8, 16}[ti%3], Repeat: rep}
+			c.Bounds = []int{1, 1 + (sh[1]-1)/2, sh[1]}
+			c.Readers = [][]int{{1, 5, 3, 9}, {5, 1, 4, 10}, {1, 1, 5, 5}, {6, 7, 8, 0}}
+			c.Writers = [][]int{{0, 1, 2, 3, 4, 5}, {5, 4, 3, 2, 1, 0}}
+			c.Yield = []int{0, 0x55, 0, 0xaa, 0x0f, 0}
+			Oracle.One(t, env, rec, "sweep", c)
+		}
+	}
 	// long buffers (more than 65536 samples) read by many goroutines at once, mostly as conversion sources
 	long := []string{"float64", "float32", "int16"}
 	if env.Thorough() {
